@@ -19,7 +19,7 @@ from __future__ import annotations
 from . import ir
 from .model import AnalysisError
 
-ROW_AND_COL_PRESERVING = {"reset_index", "copy", "sort_values", "drop_duplicates", "astype", "round", "flatten", "to_numpy"}
+ROW_AND_COL_PRESERVING = {"reset_index", "copy", "sort_values", "drop_duplicates", "astype", "round", "flatten", "to_numpy", "sample"}
 ELEMENTWISE_FUNCS = {"maximum", "minimum", "nan_to_num", "sqrt", "power", "abs", "round", "where", "isclose", "floor", "ceil",
                      "exp", "log", "clip"}
 
@@ -217,6 +217,11 @@ class Frames:
                     raise AnalysisError(f"groupby.agg for column {ir.show(name)} not understood")
             if f[0] == "global" and f[1].endswith("concat"):
                 raise AnalysisError("column of a concat: use rows()/col on the parts")
+            if f[0] == "global" and f[1].endswith("DataFrame") and fr[2] and fr[2][0][0] == "dict":
+                for kk, vv in fr[2][0][1]:
+                    if kk is not None and match(kk, name):
+                        return self.value(vv)
+                raise AnalysisError(f"DataFrame literal has no column {ir.show(name)}")
         raise AnalysisError(f"column {ir.show(name)} of {ir.show(fr, maxdepth=3)} not resolved by the frame algebra")
 
     def _distinct(self, a, b):
@@ -348,43 +353,69 @@ class Frames:
         return None
 
     # ---------------------------------------------------------------------------------------
-    def value(self, v, ctx_frame):
-        """Element-wise value term -> provenance value (column reads of the context frame are resolved)."""
-        k = v[0]
-        if k == "const":
+    FRAME_METHODS = {"merge", "assign", "rename", "fillna", "reset_index", "copy", "sort_values", "drop", "drop_duplicates", "sample",
+                     "query", "head", "tail", "sum", "agg", "apply", "dropna", "astype"}
+    NON_FRAME_PARAMS = {"self", "alpha", "estimand", "aggregate", "col_prefix", "conf_frac", "correction_quantile", "scores"}
+
+    def is_frame(self, t):
+        if t in self.bases:
+            return True
+        k = t[0]
+        if k == "param":
+            return t[1] not in self.NON_FRAME_PARAMS and not t[1].startswith("*")
+        if k in ("setitem", "loopout", "loopin"):
+            return True
+        if k == "phi":
+            return self.is_frame(t[2]) and self.is_frame(t[3])
+        if k == "call" and t[1][0] == "attr" and t[1][2] in self.FRAME_METHODS:
+            return self.is_frame(t[1][1]) or (t[1][1][0] == "call" and t[1][1][1][0] == "attr" and t[1][1][1][2] == "groupby")
+        if k == "call" and t[1][0] == "global" and t[1][1].endswith(("DataFrame", "concat")):
+            return True
+        if k == "sub":
+            idx = t[2]
+            if idx[0] in ("const", "fstr") and not (idx[0] == "const" and not isinstance(idx[1], str)):
+                return False  # a column
+            return self.is_frame(t[1])
+        if k == "attr" and t[2] in ("loc", "iloc"):
+            return self.is_frame(t[1])
+        return False
+
+    def value(self, v, ctx_frame=None):
+        """Resolve the column reads inside an element-wise expression; everything else is left as it is.
+        A bare constant becomes ('lit', c) (broadcast scalar)."""
+        if v[0] == "const":
             return ("lit", v[1])
-        if k in ("param", "global"):
-            return v
-        if k == "attr":
-            if v[2] in ("values",):
-                return self.value(v[1], ctx_frame)
-            # frame.col ?
+        return self._value(v)
+
+    def _value(self, v):
+        key = ("v", v)
+        if key in self.memo:
+            return self.memo[key]
+        r = self._value0(v)
+        self.memo[key] = r
+        return r
+
+    def _value0(self, v):
+        k = v[0]
+        if k == "sub" and v[2][0] in ("const", "fstr") and not (v[2][0] == "const" and not isinstance(v[2][1], str)) and self.is_frame(v[1]):
+            try:
+                return self.col(v[1], v[2])
+            except AnalysisError:
+                return ("col", v[1], v[2])  # opaque column of an unresolved frame
+        if k == "attr" and self.is_frame(v[1]) and v[2] not in ("values", "shape", "columns", "index", "T", "loc", "iloc", "str", "dtypes"):
             try:
                 return self.col(v[1], ("const", v[2]))
             except AnalysisError:
-                return ("attr", self.value(v[1], ctx_frame), v[2])
-        if k == "sub":
-            if v[2][0] in ("const", "fstr") and not (v[2][0] == "const" and not isinstance(v[2][1], str)):
-                return self.col(v[1], v[2])
-            return ("sub", self.value(v[1], ctx_frame), v[2])
-        if k == "bin":
-            return ("bin", v[1], self.value(v[2], ctx_frame), self.value(v[3], ctx_frame))
-        if k == "un":
-            return ("un", v[1], self.value(v[2], ctx_frame))
-        if k == "cmp":
-            return ("cmp", v[1], self.value(v[2], ctx_frame), self.value(v[3], ctx_frame))
-        if k == "call":
-            f = v[1]
-            if f[0] == "attr" and f[2] in ("copy", "flatten", "reshape", "to_numpy", "astype"):
-                return self.value(f[1], ctx_frame)
-            args = tuple(self.value(a, ctx_frame) for a in v[2])
-            kws = tuple((kk, self.value(vv, ctx_frame)) for kk, vv in v[3])
-            if f[0] == "attr":
-                return ("call", ("attr", self.value(f[1], ctx_frame), f[2]), args, kws)
-            return ("call", f, args, kws)
-        if k == "phi":
-            return ("phi", v[1], self.value(v[2], ctx_frame), self.value(v[3], ctx_frame))
-        return v
+                return ("col", v[1], ("const", v[2]))
+        if k == "call" and any(kk == "#new" for kk, _ in v[3]):
+            return v
+        if k in ("const", "param", "global", "lambda", "closure", "unknown"):
+            return v
+        if k == "call" and v[1][0] == "attr":
+            # a method call: the callee attribute is not a column read
+            f = ("attr", self._value(v[1][1]), v[1][2])
+            return ir.I(("call", f, tuple(self._value(a) for a in v[2]), tuple((kk, self._value(vv)) for kk, vv in v[3])))
+        return ir.map_children(v, self._value)
 
 
 def _unify_elem(key, name):
